@@ -95,6 +95,14 @@ type PortalCache interface {
 	Execute(ctx context.Context, name string, reader *buffer.Reader, writer *buffer.Writer) error
 }
 
+// CacheCloser is an optional interface which could be implemented by a
+// StatementCache or PortalCache. Close is called whenever the client closes the
+// prepared statement or portal bound to the given name. The name can no longer
+// be resolved once closed, it is not an error to close a unknown name.
+type CacheCloser interface {
+	Close(ctx context.Context, name string) error
+}
+
 type CloseFn func(ctx context.Context) error
 
 // OptionFn options pattern used to define and set options for the given
